@@ -187,7 +187,7 @@ def make_iphist(nlines, preseed, families=None):
         ipo = cl.obfuscate["ip"]
         m = preseed[en.choice("preseed", len(preseed))]
         for i in range(m):
-            ipo._ip_db[START + i] = (20 << 24) + i + 1          # earlier specs of this run: 20.0.0.1 ...
+            cl.clean_content(["seen 20.0.0.%d before" % (i + 1)])   # earlier specs of this run, through the same entry point
         toks = []
         specs = []
         nl = 1 + en.choice("nlines", nlines)
@@ -379,7 +379,7 @@ def _native(case):
             cl = K.make_cleaner(K.Cfg(hostname=False, mac=False))
             ob = cl.obfuscate["ip"]
             for i in range(case["preseed"]):
-                ob._ip_db[START + i] = (20 << 24) + i + 1
+                cl.clean_content(["seen 20.0.0.%d before" % (i + 1)])
             tokrx = r"\d+\.\d+\.\d+\.\d+"
         else:
             cl = K.make_cleaner(K.Cfg(hostname=True, mac=False))
